@@ -5,6 +5,7 @@ import (
 	"errors"
 	"fmt"
 	"hash/fnv"
+	"os"
 	"runtime"
 	"sort"
 	"strconv"
@@ -347,6 +348,10 @@ func (s *Sched) run(tasksOnly bool) error {
 				return nil
 			}
 			if time.Since(start) > s.MaxVirtual {
+				if os.Getenv("VERIF_DEBUG") != "" {
+					buf := make([]byte, 1<<20)
+					os.Stderr.Write(buf[:runtime.Stack(buf, true)])
+				}
 				return ErrHang
 			}
 			// Everybody is blocked on a timer or on each other: let the fake
